@@ -100,6 +100,10 @@ class Panel(JupyterMixin):
             title_text.end = ""
             title_text.plain = title_text.plain.replace("\n", " ")
             title_text.no_wrap = True
+            # the border decides where the title goes and how much of it fits
+            title_text.justify = None
+            if title_text.overflow == "ignore":
+                title_text.overflow = None
             title_text.expand_tabs()
             title_text.pad(1)
             return title_text
